@@ -1072,23 +1072,24 @@ class FortranBackend(BaseBackend):
         # case I: generate shape-specific fortran function call
         if callable(func_info['call']):
 
-            # extract unique index for input variable shape
+            # extract unique index for input variable shape and data type
+            key = (tuple(shape), self._get_dtype(dtype))
             try:
                 shapes, indices = self._op_calls[name]
                 try:
-                    idx = shapes.index(shape)
-                    idx = indices[idx]
-                except IndexError:
-                    idx = indices[-1]
-                    shapes.append(shape)
+                    idx = indices[shapes.index(key)]
+                except ValueError:
+                    idx = indices[-1] + 1
+                    shapes.append(key)
                     indices.append(idx)
             except KeyError:
                 idx = 1
-                self._op_calls[name] = [shape], [idx]
+                self._op_calls[name] = [key], [idx]
 
-            # generate function call and string
+            # generate function call and string (on a copy: the function table is shared by all backend instances of the
+            # process, and the definition depends on the shape and precision of this call)
             func_call, func_str = func_info['call'](idx, self._get_shape(shape, var=''), self._get_dtype(dtype))
-            func_info['call'] = func_call
+            func_info = dict(func_info, call=func_call)
             func_info['def'] = func_str
 
         return func_info
